@@ -120,9 +120,11 @@ type UnitGen struct {
 	topFrame    *Frame
 	entryEnd    int
 	ghostLocals map[string]Val
+	abnormal    []exit
 	defs        map[string]string // defined name -> definition text
 	patSafe     map[string]bool
 	selfForCall *Val
+	closureForCall *Closure
 	keyType     map[string]types.Type
 	mapKeyType  map[string]types.Type
 	quantified  bool
@@ -519,7 +521,7 @@ func (u *UnitGen) heapAxiom(st *State, key string, arr Term) {
 		if f.S == "true" {
 			return
 		}
-		u.assumeStructural(Term{fmt.Sprintf("(forall ((hx_r Int) (hx_k %s)) (! %s :pattern (%s)))", ks, f.S, el.S), SBool})
+		u.assumeStructural(Term{fmt.Sprintf("(forall ((hx_r Int) (hx_k %s)) (! %s :pattern (%s)))", ks, u.allocGuard(st, f.S), el.S), SBool})
 		return
 	}
 	if !strings.HasPrefix(key, "H:") && !strings.HasPrefix(key, "C:") {
@@ -530,7 +532,18 @@ func (u *UnitGen) heapAxiom(st *State, key string, arr Term) {
 	if f.S == "true" {
 		return
 	}
-	u.assumeStructural(Term{fmt.Sprintf("(forall ((hx_r Int)) (! %s :pattern (%s)))", f.S, el.S), SBool})
+	// only allocated objects: the fields of addresses at or above top are the values a later
+	// allocation (by a callee's contract) will be found to hold
+	u.assumeStructural(Term{fmt.Sprintf("(forall ((hx_r Int)) (! %s :pattern (%s)))", u.allocGuard(st, f.S), el.S), SBool})
+}
+
+// allocGuard restricts a well-typedness fact that bounds a pointer by the allocation frontier to
+// allocated objects; facts about plain values (integer ranges, lengths) hold for every address.
+func (u *UnitGen) allocGuard(st *State, f string) string {
+	if !strings.Contains(f, "top") {
+		return f
+	}
+	return fmt.Sprintf("(=> (and (<= 0 hx_r) (< hx_r %s)) %s)", u.top(st).S, f)
 }
 
 func (u *UnitGen) mapKeys(mt types.Type) (dk, vk string, ds, vs Sort) {
